@@ -1,3 +1,4 @@
+import Stackage.Lemmas.GenSem
 import Stackage.Spec.Skeleton
 import Stackage.Lemmas.Marshal
 
@@ -296,7 +297,8 @@ def condErr (kw : Text) (op : Op) : Option Nat :=
 
 theorem condErr_none_iff (kw : Text) (op : Op) :
     condErr kw op = none ↔ kw ≠ [] ∧ ∀ code, op = .cmp code → 1 ≤ code ∧ code ≤ 6 := by
-  unfold condErr Gen.cond_op_bogus
+  unfold condErr
+  simp only [GenSem.cond_op_bogus, decide_eq_true_eq]
   cases kw with
   | nil => simp
   | cons a t =>
